@@ -173,7 +173,7 @@ CHECKS = {
          "format 2, maxp), resolves every glyphid()/unicode()/U+/range/postscript() reference of the generated program (auto-pseudos for code points sharing a glyph), and requires of the real "
          "output: the FSM certified against exactly those class memberships (C02 theorem), the substitution data (C04), lbGID, maxGlyphID, the sorted duplicate-free Unicode-to-pseudo map and the "
          "actualForPseudo attribute equal to the model; unmapped code points (single, runs in a list, ranges running off the mapped block) must give error 4109 and no font, or be skipped under -g."),
-   note=TB + "cmap lookup is the format's linear-scan semantics (the compiler's binary search is validated against it, not proved). Explicit pseudo() definitions and non-ASCII codepoint() are not generated.",
+   note=TB + "cmap lookup is the format's linear-scan semantics (the compiler's binary search is validated against it, not proved). Explicit pseudo() definitions are generated (ids read from the font's own map, real glyph and uniqueness checked); non-ASCII codepoint() is not.",
    design="4/C17"),
  "C14": dict(
    technique="Lean 4 theorem (skip-bit soundness for all glyph strings and positions) + its hypothesis evaluated on the decoded *skipPasses* attributes of real output + differential shaping of default vs -p builds with libgraphite2",
